@@ -22,7 +22,12 @@ def run(ctx):
         'side) x pitch + 2 x corner length = duct_oftf / sqrt3, for a side '
         'meshed by a pin bundle (corner length = outer face of the last duct, '
         'closed form proved by C08.R4; count = n_ring - 1 of the assembly '
-        'whose mesh is used) and for an unrodded side (no edge cells)']
+        'whose mesh is used) and for an unrodded side (no edge cells)',
+        'R5 the wetted perimeters of the gap cells around an assembly '
+        'telescope to the hexagon perimeter: increments x[i+1] - x[i] over '
+        'all consecutive boundaries plus a wrap-around term W with W + '
+        '(x[-1] - x[0]) = 6 duct_oftf / sqrt3 identically, in both perimeter '
+        'functions (cell-wise and assembly-wise)']
     ctx.not_decided += ['cover-once, 1-3 neighbours, symmetric adjacency, '
                         'mesh-independent total area (combinatorial facts of '
                         'the run-time maps)']
@@ -31,6 +36,8 @@ def run(ctx):
     r3(ctx)
     r4(ctx)
     ctx.min_instances('C09.R4', 3)
+    r5(ctx)
+    ctx.min_instances('C09.R5', 6)
     ctx.min_instances('C09.R1', 36)
     ctx.min_instances('C09.R2', 1)
     ctx.min_instances('C09.R3', 3)
@@ -407,3 +414,75 @@ def r4(ctx):
                     '(pitch = %s, corner = %s; residual %r)'
                     % (label, src(pv), src(wv), H.reduce_r3(res).n),
                     key='%s | %s side tiling' % (fi.full, label))
+
+
+# ---------------------------------------------------------------------------
+# R5: perimeters telescope to the hexagon perimeter
+
+def r5(ctx):
+    from . import _hexgeom as H
+    from ..poly import Rat, from_ast
+    c = Rat.const
+    for q in ('Core._calculate_sc_wp', 'Core._calculate_asm_sc_wp'):
+        fi = ctx.repo.func('core', q)
+        hp = U.single_def(fi.node, 'hex_perim')
+        if hp is None:
+            raise AnalysisError(q + ': hex_perim')
+        at = {'self.duct_oftf': 'OFTF', 'np.sqrt(3)': 'r3', '_sqrt3': 'r3',
+              'math.sqrt(3)': 'r3'}
+        hv = from_ast(hp, at, auto=True)
+        ctx.require(H.is_zero(hv - c(6) * Rat.sym('OFTF') / H.R3), 'C09.R5',
+                    fi, hp, 'hexagon perimeter = 6 duct_oftf / sqrt3',
+                    key=fi.full + ' | hex perimeter')
+        # the per-assembly loop
+        outer = [l for l in fi.node.body if isinstance(l, ast.For)]
+        found = False
+        for lo in outer:
+            inner = [l for l in lo.body if isinstance(l, ast.For)
+                     and isinstance(l.target, ast.Name)]
+            for li in inner:
+                iv = li.target.id
+                it = li.iter
+                m = match('range(len(Q_x) - 1)', it)
+                if m is None:
+                    continue
+                X = src(m['Q_x'])
+                incs = [st for st in walk_no_nested(li)
+                        if isinstance(st, (ast.Assign, ast.AugAssign))
+                        and X in src(st.value)]
+                ok = len(incs) == 1
+                if ok:
+                    try:
+                        v = from_ast(incs[0].value, {
+                            '%s[%s + 1]' % (X, iv): 'b',
+                            '%s[%s]' % (X, iv): 'a'}, auto=True)
+                        ok = v.equals(Rat.sym('b') - Rat.sym('a'))
+                    except Exception:
+                        ok = False
+                ctx.require(ok, 'C09.R5', fi, incs[0] if incs else li,
+                            'each cell gets the distance between its two '
+                            'boundaries %s[i+1] - %s[i], for all consecutive '
+                            'boundaries' % (X, X),
+                            key=fi.full + ' | increment')
+                # wrap-around: the first store after the inner loop
+                after = lo.body[lo.body.index(li) + 1:]
+                wr = [st for st in after
+                      if isinstance(st, (ast.Assign, ast.AugAssign))
+                      and X in src(st.value)]
+                ok = len(wr) == 1
+                res = None
+                if ok:
+                    w = from_ast(wr[0].value, {
+                        'hex_perim': 'Hx', X + '[-1]': 'xl',
+                        X + '[len(%s) - 1]' % X: 'xl', X + '[0]': 'x0'},
+                        auto=True)
+                    res = w + Rat.sym('xl') - Rat.sym('x0') - Rat.sym('Hx')
+                    ok = res.is_zero()
+                ctx.require(ok, 'C09.R5', fi, wr[0] if wr else lo,
+                            'the closing cell must get the rest of the '
+                            'perimeter: W + (%s[-1] - %s[0]) = hex_perim '
+                            '(residual %r)' % (X, X, res.n if res else None),
+                            key=fi.full + ' | wrap-around')
+                found = True
+        if not found:
+            raise AnalysisError(q + ': boundary loop not found')
